@@ -219,6 +219,10 @@ struct Task {
     spin: bool,
     progress: bool,
     prio: i64,
+    /// polled with tokio's cooperative budget in force (fresh per poll)
+    constrained: bool,
+    /// its last poll burnt the whole budget (and a virtual ms): it runs only when nobody else can
+    busy: bool,
 }
 
 #[derive(Clone, Copy, PartialEq, Eq, Debug)]
@@ -344,7 +348,14 @@ impl<'a, 'h> Root<'a, 'h> {
         }
         let mut steps_this_poll = 0u32;
         let mut real_step_this_poll = false;
+        // a budgeted task has been polled in this root poll: go back to block_on (which hands
+        // out a fresh cooperative budget per poll of the root future) before the next step
+        let mut fresh_budget_needed = false;
         loop {
+            if fresh_budget_needed && self.advancing.is_none() {
+                cx.waker().wake_by_ref();
+                return Poll::Pending;
+            }
             if let Some(f) = &mut self.advancing {
                 match f.as_mut().poll(cx) {
                     Poll::Ready(()) => {
@@ -413,6 +424,11 @@ impl<'a, 'h> Root<'a, 'h> {
                     }
                     _ => {}
                 }
+            }
+            // a task that keeps burning its budget (1 virtual ms per poll) runs after everybody
+            // else, so that the others still see every instant exactly
+            if cands.iter().any(|c| !matches!(c, StepKind::Poll(i) if self.tasks[*i as usize].busy)) {
+                cands.retain(|c| !matches!(c, StepKind::Poll(i) if self.tasks[*i as usize].busy));
             }
             if cands.is_empty() {
                 if self.all_terminal() {
@@ -542,6 +558,12 @@ impl<'a, 'h> Root<'a, 'h> {
                         match r {
                             // unconstrained: tokio's cooperative budget must never turn a ready
                             // semaphore / channel / timer into a spurious Pending
+                            // (budgeted mode: the task keeps the budget, and gets a fresh one per
+                            // poll because the root future yields to block_on after its step)
+                            Ok(f) if world::with(|w| w.script.constrained_tasks) => {
+                                self.tasks[i].constrained = true;
+                                self.tasks[i].fut = Some(f)
+                            }
                             Ok(f) => self.tasks[i].fut = Some(Box::pin(tokio::task::unconstrained(f))),
                             Err(_) => {
                                 self.tasks[i].res.status = Status::Panicked;
@@ -558,10 +580,25 @@ impl<'a, 'h> Root<'a, 'h> {
                         let waker = t.waker.clone();
                         let mut tcx = Context::from_waker(&waker);
                         let fut = t.fut.as_mut().unwrap();
+                        let constrained = t.constrained;
+                        world::with(|w| {
+                            w.constrained_now = constrained;
+                            w.busy_poll = false;
+                        });
                         let r = std::panic::catch_unwind(AssertUnwindSafe(|| {
                             fut.as_mut().poll(&mut tcx)
                         }));
                         self.shared.cur.store(0, Ordering::SeqCst);
+                        world::with(|w| w.constrained_now = false);
+                        if constrained {
+                            fresh_budget_needed = true;
+                        }
+                        t.busy = world::with(|w| std::mem::replace(&mut w.busy_mark, false));
+                        if world::with(|w| std::mem::replace(&mut w.busy_poll, false)) {
+                            t.busy = true;
+                            // a poll that burnt the whole budget takes time: one virtual ms
+                            self.advancing = Some(Box::pin(tokio::time::advance(Duration::from_millis(1))));
+                        }
                         match r {
                             Ok(Poll::Ready(out)) => {
                                 t.res.status = Status::Resolved;
@@ -715,6 +752,8 @@ pub fn run_sim(
                 spin: false,
                 progress: false,
                 prio: 0,
+                constrained: false,
+                busy: false,
             });
         }
         let mut change_points = Vec::new();
